@@ -2557,8 +2557,10 @@ impl CommandParser {
         let mut score_members = Vec::new();
         let mut i = 2;
         while i < frames.len() {
-            let score = Self::extract_string(&frames[i])?.parse::<f64>()
-                .map_err(|_| FerrousError::Command(CommandError::InvalidFloatValue))?;
+            // NaN is not a valid score (it cannot be ordered, and can never be removed again)
+            let score = Self::extract_string(&frames[i])?.parse::<f64>().ok()
+                .filter(|score| !score.is_nan())
+                .ok_or(FerrousError::Command(CommandError::InvalidFloatValue))?;
             let member = Self::extract_bytes(&frames[i + 1])?;
             score_members.push((score, member));
             i += 2;
@@ -2690,8 +2692,9 @@ impl CommandParser {
         if frames.len() != 4 {
             return Err(FerrousError::Command(CommandError::WrongNumberOfArguments("ZINCRBY".into())));
         }
-        let increment = Self::extract_string(&frames[2])?.parse::<f64>()
-            .map_err(|_| FerrousError::Command(CommandError::InvalidFloatValue))?;
+        let increment = Self::extract_string(&frames[2])?.parse::<f64>().ok()
+            .filter(|increment| !increment.is_nan())
+            .ok_or(FerrousError::Command(CommandError::InvalidFloatValue))?;
         Ok(SortedSetCommand::ZIncrBy {
             key: Self::extract_bytes(&frames[1])?,
             increment,
